@@ -22,7 +22,7 @@ type faultFull struct {
 	calls  *int
 	failAt int
 	log    *[]string
-	bare   bool // the injected failure is a bare error value, not a *PathError
+	bare   bool   // the injected failure is a bare error value, not a *PathError
 	failOn string // when set: every primitive call of this kind (first word of its log line) fails
 	hits   *int   // (with failOn) how many calls failed
 }
